@@ -57,7 +57,7 @@ KINDS3 = [k + "3" for k in KINDS2]
 KINDS_NAMED = ["prefix_named", "prefix_rejected", "unit_named", "unit_rejected", "dim_named", "dim_rejected"]
 # nested expressions (the inner operand is itself a first-time construction and is used at once),
 # and two threads that define two *different* new units which are multiplied afterwards
-KINDS_NESTED = ["unit_pow_mul", "unit_pow_mul3", "two_defines"]
+KINDS_NESTED = ["unit_pow_mul", "unit_pow_mul3", "two_defines", "unit_parsed", "unit_parsed3"]
 KINDS = KINDS2 + KINDS3 + KINDS_NAMED + KINDS_NESTED
 # exhaustively enumerated sub-space: (kind, class whose __new__ window lines are decision points)
 ENUM = [
@@ -227,6 +227,20 @@ class Plan:
             self.unit_den = ((0, 0), {id(Meter): n, id(Second): 1})
             self.prefix_key = (0, 0)
             self.dim_key = tuple(a_ * n + b_ for a_, b_ in zip(Length.exponents, Time.exponents))
+        elif base == "unit_parsed":
+            # the expression is a text: every thread parses it (Unit.parse goes through the one
+            # parser object the library shares), a third one evaluates the same unit by arithmetic
+            self.target = "Unit"
+            Second = g["Second"]
+            text = f"m^{n} s^-{n}"
+            add(f"Unit.parse({text!r})", lambda: Unit.parse(text))
+            add(f"Unit.parse({text!r})", lambda: Unit.parse(text))
+            if three:
+                add(f"Meter**{n}/Second**{n}", lambda: Meter**n / Second**n)
+            self.later_only = [(f"Meter**{n}/Second**{n}", lambda: Meter**n / Second**n)]
+            self.unit_den = ((0, 0), {id(Meter): n, id(Second): -n})
+            self.prefix_key = (0, 0)
+            self.dim_key = tuple(a_ * n - b_ * n for a_, b_ in zip(Length.exponents, Time.exponents))
         elif base == "two_defines":
             self.target = "Pair"
             add(f"Unit.define(Length,'vfa{n}')", lambda: Unit.define(Length, f"vfa{n}", f"vfa{n}"))
@@ -431,7 +445,7 @@ def run_case(case) -> core.Outcome:
         raise AssertionError(f"harness: dimension {plan.dim_key} is not fresh")
     if plan.target == "Prefix" and plan.prefix_key in tables["Prefix"]:
         raise AssertionError(f"harness: prefix {plan.prefix_key} is not fresh")
-    if plan.target == "Unit" and plan.base != "unit_pow_mul":
+    if plan.target == "Unit" and plan.base not in ("unit_pow_mul", "unit_parsed"):
         p = tables["Prefix"].get(plan.prefix_key)
         if p is not None and ((p, ((NS["Meter"], plan.n),)) in tables["Unit"]):
             raise AssertionError(f"harness: unit {plan.exprs[0]} is not fresh")
@@ -523,7 +537,7 @@ def enumerate_cases(tier):
     # every k up to the length of the thunk, and with the roles swapped; in the thorough tier
     # also every (k1, k2) two-preemption schedule
     PREEMPT_STATS.clear()
-    for kind in KINDS2 + KINDS_NAMED + ["unit_pow_mul", "two_defines"]:
+    for kind in KINDS2 + KINDS_NAMED + ["unit_pow_mul", "two_defines", "unit_parsed"]:
         probe = {"kind": kind, "schedule": [0] * 600, "mode": "line"}
         yield probe
         if _LAST.get("case") != core.canon(probe):
